@@ -221,8 +221,12 @@ func (s *Sim) checkPool(after string) {
 	}
 	st := s.W.Stats()
 	exp := s.M.Creations - s.M.Removals
+	// A wrong count ends the run only in the C02 check: in the checks of the other properties
+	// the run goes on, so that a defect that first shows as a ghost row is also reported by
+	// the property's own oracles (store, relations, queries) a few operations later.
+	fatal := s.Prof.Name == "C02" || s.Prof.Name == "default"
 	if st.Entities.Used != exp || len(s.M.Live) != exp {
-		s.violate("C02", "pool.count", after, true, "after %s Stats().Entities.Used = %d, creations - removals = %d", after, st.Entities.Used, exp)
+		s.violate("C02", "pool.count", after, fatal, "after %s Stats().Entities.Used = %d, creations - removals = %d", after, st.Entities.Used, exp)
 		return
 	}
 	if s.lockDepth < 64 {
@@ -231,7 +235,7 @@ func (s *Sim) checkPool(after string) {
 		c := q.Count()
 		q.Close()
 		if c != exp {
-			s.violate("C02", "pool.count", after+"/filter0", true, "after %s Filter0 count = %d, creations - removals = %d", after, c, exp)
+			s.violate("C02", "pool.count", after+"/filter0", fatal, "after %s Filter0 count = %d, creations - removals = %d", after, c, exp)
 		}
 	}
 }
